@@ -66,6 +66,12 @@ namespace igris
                     tot * strlen(delim));
 
         ret.append(prefix);
+        if (tot == 0)
+        {
+            ret.append(postfix);
+            return ret;
+        }
+
         Iter it = start;
         for (unsigned int i = 0; i < tot - 1; ++i)
         {
